@@ -1,9 +1,65 @@
+"""C06 — control variables are assigned before use and in range.
+
+(1) every stage output of the real pipeline: Lean `ctlOK` (verified closed-set check over all
+    reachable control-variable valuations, latches consuming their variable) and `tablesOK`;
+(2) "after every renaming": random edit histories on real graphs that contain branching
+    synthetic blocks (restructured hierarchies); after every completed real call the Lean
+    predicate `tablesPreserved` must hold between the real before/after pair.
+"""
+import random
+from harness import common, edits, export
 from harness.props import _hier
+
 LEVEL = _hier.LEVEL
 
 
+def renaming_histories(n, seed):
+    rng = random.Random(seed * 2713 + 6)
+    drv = common.Driver()
+    lines, meta = [], []
+    tried = 0
+    while len(meta) < n and tried < n * 6:
+        tried += 1
+        kind, scfg, ops = edits.gen_history(rng)
+        if kind == "flat":
+            continue
+        top = scfg.region.name
+        for op in ops:
+            _, before = export.export(scfg)
+            if "synth_head" not in before and "synth_exit" not in before:
+                break
+            abort, _ = edits.apply_real(scfg, op)
+            if abort is not None:
+                break
+            _, after = export.export(scfg)
+            # only re-targetings of existing arcs are "renamings"; giving an exit a first successor
+            # (S = [], join_returns) adds an arc and is not covered by this clause
+            if op[0] == "join_returns" or (op[0] == "insert_block" and not op[4]) or (op[0] == "insert_ctl" and not op[3]):
+                continue
+            lines += [f"G {top} {before}", f"H {top} {after}", "SPEC tables_preserved"]
+            meta.append((kind, op, before, after))
+    rep = drv.run(lines) if lines else []
+    fails = []
+    for k, m in enumerate(meta):
+        if rep[3 * k + 2] != "1":
+            fails.append(m)
+    return len(meta), fails
+
+
 def run(ctx):
-    return _hier.run(ctx, "C06")
+    res = _hier.run(ctx, "C06")
+    n, fails = renaming_histories(1500 if ctx["tier"] == "quick" else 40000, ctx["seed"])
+    res["coverage"]["renaming_steps_checked"] = n
+    res["coverage"]["renaming_failures"] = len(fails)
+    res["coverage"]["rule"] += "; plus random edit operations (insert_block, insert_block_and_control_blocks, join_returns, " \
+                               "join_tails_and_exits) on restructured real hierarchies, table agreement of pre-existing branching blocks re-checked after each"
+    if fails:
+        kind, op, before, after = min(fails, key=lambda m: len(m[2]))
+        res["violations"].append({
+            "signature": {"stage": "renaming", "clauses": "tables-after-" + op[0]},
+            "what": f"a branching block's value table disagrees with its successors after {op[0]} ({len(fails)} of {n} edit steps)",
+            "payload": {"start_kind": kind, "op": op, "before": before, "after": after, "count": len(fails)}})
+    return res
 
 
 def replay(path):
